@@ -41,7 +41,9 @@ class LinearSegment:
         offset = coeffs.numerators[0]
         factor = 0 if len(coeffs.numerators) == 1 else coeffs.numerators[1]
 
-        denominator = 1.0
+        # (an integer: a scale without COMPU-DENOMINATOR converts
+        # integers exactly, too)
+        denominator: Union[int, float] = 1
         if len(coeffs.denominators) > 0:
             denominator = coeffs.denominators[0]
 
